@@ -529,6 +529,7 @@ func cmdCrash(fs *flag.FlagSet, args []string) {
 			}
 			trouble := ""
 			rs.locks = *locks
+			rs.flushLocks = true
 			rs.sink = func(l string) {
 				if strings.HasPrefix(l, "# PANIC") || strings.HasPrefix(l, "# HANG") {
 					trouble = l
